@@ -17,6 +17,10 @@ func (m *Machine) addPC(c *Term) {
 		return
 	}
 	m.pc = append(m.pc, c)
+	if m.pcSet == nil {
+		m.pcSet = map[*Term]bool{}
+	}
+	m.pcSet[c] = true
 	if m.lastModel != nil {
 		if EvalTerm(c, m.lastModel, map[*Term]uint64{}) != 1 {
 			m.lastModel = nil
@@ -34,6 +38,10 @@ func (m *Machine) syncSolver() {
 // (over-approximation of the path set; verdicts still need a sat/unsat).
 func (m *Machine) feasible(c *Term) (bool, Model, SatResult) {
 	if c.IsFalse() {
+		return false, nil, Unsat
+	}
+	// syntactic shortcut: the negation is already a conjunct of the path condition
+	if m.pcSet[m.st.BNot(c)] {
 		return false, nil, Unsat
 	}
 	if m.lastModel != nil && EvalTerm(c, m.lastModel, map[*Term]uint64{}) == 1 {
@@ -263,6 +271,7 @@ func (m *Machine) resetPath(h *Harness, prefix []int64) {
 	m.trace = m.trace[:0]
 	m.alts = nil
 	m.pc = nil
+	m.pcSet = nil
 	m.asserted = 0
 	m.lastModel = Model{}
 	m.frame = nil
